@@ -127,10 +127,32 @@ def flat(rows):
     return [v for r in rows for v in r]
 
 
-def mk(rows, dt):
-    """the RaggedArray under test, built through the public (data, row_lengths) constructor"""
+def mk(rows, dt, derive=True):
+    """the RaggedArray under test: built through the public (data, row_lengths) constructor, or - deterministically, depending on the rows - a
+    lazily derived array holding the same rows (reversed twice / a tail / an index list / a boolean mask of a larger fresh array).  By C06 the way an
+    array came about must not matter to any operation; functions that read the geometry before materialising the data only fail on derived inputs."""
     from npstructures import RaggedArray
-    return RaggedArray(np.array(flat(rows), dtype=dt), [len(r) for r in rows])
+
+    def fresh(rs):
+        return RaggedArray(np.array(flat(rs), dtype=dt), [len(r) for r in rs])
+    n = len(rows)
+    # the derivation depends on the shape AND the element dtype, so every shape is exercised fresh and derived in several ways across the dtypes
+    how = (sum(len(r) * (i + 3) for i, r in enumerate(rows)) + n + sum(map(ord, str(np.dtype(dt))))) % 5 if derive else 0
+    if n == 0 or how == 0:
+        return fresh(rows)
+    dummy = [rows[0][0]] * 2 if len(rows[0]) else [np.array(1, dtype=dt).item()]
+    if how == 1:
+        return fresh(rows[::-1])[::-1]
+    if how == 2:
+        return fresh([dummy] + list(rows))[1:]
+    if how == 3:
+        perm = list(range(n))[::-1]
+        return fresh([rows[i] for i in perm])[[perm.index(i) for i in range(n)]]
+    inter, mask = [], []
+    for r in rows:
+        inter += [r, dummy]
+        mask += [True, False]
+    return fresh(inter)[np.array(mask)]
 
 
 def num_eq(a, b, rtol=0.0):
